@@ -32,7 +32,7 @@ pub fn run(ctx: &mut Ctx) {
     }
     // recorded collision witnesses of the residual hash (F12): two reachable states of one solver
     // with different residual formulas must not have the same hash
-    for case in ctx.cases("hash_witness", 2, false) {
+    for case in ctx.cases("hash_witness", 3, false) {
         ctx.run_case("hash_witness", case, |ctx, _rng| hash_witness(ctx, case));
     }
     // the single clause of the known F5 history, under every literal order
@@ -54,8 +54,11 @@ fn hash_witness(ctx: &mut Ctx, case: u64) {
     let lit = |v: usize, p: bool| Literal::new(VarLabel::new(v as u64), p);
     let (raw, sets): (RawCnf, Vec<Vec<(usize, bool)>>) = if case == 0 {
         (witness1(), vec![S.iter().map(|v| (*v, false)).collect(), T.iter().map(|v| (*v, false)).collect()])
-    } else {
+    } else if case == 1 {
         (witness2().0, vec![vec![(0, true)], vec![(0, false)]])
+    } else {
+        // F17: a collision constructed against the repaired 127-bit hash
+        (witness3(), vec![vec![(0, true)], vec![(0, false)]])
     };
     let cnf = rsdd::repr::Cnf::new(&raw.iter().map(|c| c.iter().map(|(v, p)| lit(*v, *p)).collect::<Vec<_>>()).collect::<Vec<_>>());
     let n = cnf.num_vars();
@@ -64,6 +67,7 @@ fn hash_witness(ctx: &mut Ctx, case: u64) {
         None => panic!("HARNESS: witness CNF reported unsatisfiable"),
     };
     let mut seen: Vec<(u128, Vec<Vec<(usize, bool)>>)> = Vec::new();
+    let mut exact = Vec::new();
     for decisions in &sets {
         let mut model: Vec<Option<bool>> = vec![None; n];
         let mut pushed = 0;
@@ -77,6 +81,7 @@ fn hash_witness(ctx: &mut Ctx, case: u64) {
             }
         }
         seen.push((s.cur_hash(), residual(&raw, &model)));
+        exact.push(s.cur_residual().clone());
         for _ in 0..pushed {
             s.pop();
         }
@@ -85,8 +90,13 @@ fn hash_witness(ctx: &mut Ctx, case: u64) {
     ctx.case_eval(Some(crate::rng::mix(0xF12 ^ case)));
     if seen[0].1 != seen[1].1 && seen[0].0 == seen[1].0 {
         ctx.violation("up.hash.witness", "two reachable states of one solver have different residual formulas and the same hash (recorded witness)",
-            json!({"witness": case + 1, "hash": seen[0].0.to_string(), "variables": n, "clauses": raw.len(),
+            json!({"collision": {"hash": seen[0].0.to_string(), "witness": case + 1}, "variables": n, "clauses": raw.len(),
                 "decisions_a": sets[0].len(), "decisions_b": sets[1].len()}));
+    }
+    // the exact residual (what a cache has to compare after F17) must tell the two states apart
+    if seen[0].1 != seen[1].1 && exact[0] == exact[1] {
+        ctx.violation("up.residual", "two reachable states with different residual formulas have equal cur_residual() (recorded witness)",
+            json!({"witness": case + 1}));
     }
 }
 
@@ -97,6 +107,8 @@ struct Obs {
     is_sat: bool,
     hash: u128,
     diff: BTreeSet<(usize, bool)>,
+    /// `cur_residual()`: the removed literal occurrences
+    removed: Vec<usize>,
 }
 
 fn observe(s: &SATSolver, n: usize) -> Obs {
@@ -110,6 +122,7 @@ fn observe(s: &SATSolver, n: usize) -> Obs {
         is_sat: s.is_sat(),
         hash: s.cur_hash(),
         diff: s.difference_iter().map(|l| (unlab(l.label()), l.polarity())).collect(),
+        removed: s.cur_residual().iter().collect(),
     }
 }
 
@@ -171,6 +184,9 @@ struct Mon<'a> {
     nc: Vec<BTreeSet<(usize, bool)>>,
     hash_checkable: bool,
     hashes: HashMap<u128, Vec<Vec<(usize, bool)>>>,
+    /// cur_residual() <-> residual formula as a family indexed by clause position
+    by_removed: HashMap<Vec<usize>, Vec<Option<Vec<(usize, bool)>>>>,
+    by_family: HashMap<Vec<Option<Vec<(usize, bool)>>>, Vec<usize>>,
     trace: Vec<Value>,
 }
 
@@ -236,6 +252,41 @@ impl<'a> Mon<'a> {
         }
         if o.is_sat {
             ctx.count("states_sat", 1);
+        }
+        // (7) cur_residual() identifies the residual formula exactly: within one solver, two states
+        // have equal removed-occurrence sets iff their residual formulas (families indexed by
+        // clause position: satisfied, or the list of unassigned literals) are equal.  This is what
+        // the top-down compiler's component cache relies on after F17.
+        {
+            let fam: Vec<Option<Vec<(usize, bool)>>> = self
+                .nc
+                .iter()
+                .map(|c| if c.iter().any(|(v, p)| o.model[*v] == Some(*p)) { None } else { Some(c.iter().filter(|(v, _)| o.model[*v].is_none()).cloned().collect()) })
+                .collect();
+            ctx.count("residual_checks", 1);
+            match self.by_removed.get(&o.removed) {
+                Some(prev) => {
+                    ctx.count("residual_repeats", 1);
+                    if *prev != fam {
+                        ctx.violation("up.residual", "two states with equal cur_residual() have different residual formulas",
+                            json!({"removed": o.removed, "first": format!("{:?}", prev), "second": format!("{:?}", fam), "ctx": info(self)}));
+                    }
+                }
+                None => {
+                    self.by_removed.insert(o.removed.clone(), fam.clone());
+                }
+            }
+            match self.by_family.get(&fam) {
+                Some(prev) => {
+                    if *prev != o.removed {
+                        ctx.violation("up.residual", "two states with the same residual formula have different cur_residual()",
+                            json!({"first": prev, "second": o.removed, "residual": format!("{:?}", fam), "ctx": info(self)}));
+                    }
+                }
+                None => {
+                    self.by_family.insert(fam, o.removed.clone());
+                }
+            }
         }
         // (6) equal hash => identical residual formula
         if self.hash_checkable {
@@ -335,6 +386,8 @@ fn solver_history(ctx: &mut Ctx, rng: &mut Rng, max_vars: usize, steps: usize) {
         hash_checkable: prime_product_fits(&nc),
         nc,
         hashes: HashMap::new(),
+        by_removed: HashMap::new(),
+        by_family: HashMap::new(),
         trace: Vec::new(),
     };
     let has_empty = cl.iter().any(|c| c.is_empty());
@@ -477,6 +530,8 @@ fn fixed_history(ctx: &mut Ctx, cl: &Clauses, hist: &[(usize, bool)]) {
         hash_checkable: prime_product_fits(&nc),
         nc,
         hashes: HashMap::new(),
+        by_removed: HashMap::new(),
+        by_family: HashMap::new(),
         trace: Vec::new(),
     };
     let mut s = match SATSolver::new(clauses_to_cnf(cl)) {
